@@ -300,6 +300,7 @@ func (e *Engine) Load() error {
 			all = append(all, con.Callers...)
 			all = append(all, con.Ensures...)
 			all = append(all, con.Modifies...)
+			all = append(all, con.Cuts...)
 			if con.Coupling != nil {
 				all = append(all, con.Coupling)
 			}
@@ -634,6 +635,17 @@ func (e *Engine) implementers(w *World, t types.Type) []*Term {
 	return ids
 }
 
+// implementerTypes: the concrete types of a closed repo interface (nil if open).
+func (e *Engine) implementerTypes(t types.Type) []types.Type {
+	w := NewWorld("int")
+	if e.implementers(w, t) == nil {
+		return nil
+	}
+	v, _ := e.implCache.Load(namedKey(t))
+	ts, _ := v.([]types.Type)
+	return ts
+}
+
 // uncomparableIDs: type ids (already registered in w) of types whose == panics.
 func (e *Engine) uncomparableIDs(w *World) []*Term {
 	var out []*Term
@@ -764,4 +776,27 @@ func (e *Engine) unrollable(fn *ssa.Function) bool {
 		return strings.HasSuffix(f.Pkg.Pkg.Path(), "/types/node/bc")
 	}
 	return false
+}
+
+// cutFor returns the cut clause attached to block b of fn (the n-th block with that comment).
+func (e *Engine) cutFor(fn *ssa.Function, b *ssa.BasicBlock) *Clause {
+	con := e.contracts[fn]
+	if con == nil || len(con.Cuts) == 0 {
+		return nil
+	}
+	ord := 0
+	for _, o := range fn.Blocks {
+		if o.Comment == b.Comment {
+			if o == b {
+				break
+			}
+			ord++
+		}
+	}
+	for _, c := range con.Cuts {
+		if c.CutComment == b.Comment && c.CutOrd == ord {
+			return c
+		}
+	}
+	return nil
 }
